@@ -185,3 +185,12 @@ Theorem C02_hypotheses_satisfiable :
     In (Some (false, EConflict)) (map ob_err (snd (run (new_voteset chain h r PRECOMMIT vals) ops))).
 Proof. exact hypotheses_satisfiable. Qed.
 Print Assumptions C02_hypotheses_satisfiable.
+
+(** Tie to the Go SOURCE (translator /verif/go2coq, regenerated from /repo on every check): the model's
+    quorum arithmetic, running sums, quorum-crossing test, VerifyCommit threshold test, cap test and
+    safeAddClip/safeSubClip are the expressions of types/vote_set.go and types/validator_set.go
+    themselves, on the operands named there (statement spelled out in SourceTie.v). *)
+From Kardia Require Import C02.SourceTie.
+Theorem C02_source_tie : C02_source_tie_statement.
+Proof. exact C02_source_tie_proof. Qed.
+Print Assumptions C02_source_tie.
